@@ -71,8 +71,8 @@ Qed.
 Lemma rawpart_eq_emb (x p : part) : rawpart_eq (raw_of_part x) (raw_of_part p) = Ok (part_eqb x p).
 Proof. destruct x, p; reflexivity. Qed.
 
-Lemma rawpart_eq_emb_sym (x p : part) : rawpart_eq (raw_of_part p) (raw_of_part x) = Ok (part_eqb x p).
-Proof. destruct x, p; cbn [raw_of_part rawpart_eq part_eqb]; try reflexivity; rewrite Z.eqb_sym; reflexivity. Qed.
+Lemma part_eqb_sym (x y : part) : part_eqb x y = part_eqb y x.
+Proof. destruct x, y; cbn [part_eqb]; try reflexivity; apply Z.eqb_sym. Qed.
 
 (* ------------------------------------------------------------------ the loop of as_memory_map *)
 
